@@ -53,6 +53,9 @@ LeafTable ==
     arr    |-> L(("type" :> <<"array">>) @@ ("items" :> Int_) @@ ("minItems" :> 2) @@ ("maxItems" :> 3),
                  <<JArr(<<>>), JArr(<<JNum(0)>>), JArr(<<JNum(0), JNum(4)>>), JArr(<<JNum(0), JNum(0), JNum(0), JNum(0)>>),
                    JArr(<<JNum(0), SA>>), SA>>, JArr(<<JNum(0), JNum(4)>>)),
+    \* differs from arr only in the limits
+    arr2   |-> L(("type" :> <<"array">>) @@ ("items" :> Int_) @@ ("minItems" :> 1) @@ ("maxItems" :> 2),
+                 <<JArr(<<>>), JArr(<<JNum(0)>>), JArr(<<JNum(0), JNum(4)>>), JArr(<<JNum(0), JNum(0), JNum(0)>>), SA>>, JArr(<<JNum(0)>>)),
     arrobj |-> L(("type" :> <<"array">>) @@ ("items" :> (("type" :> <<"object">>) @@ ("properties" :> <<[k |-> "k", s |-> Int_]>>)
                                                         @@ ("required" :> <<"k">>))),
                  <<JArr(<<>>), JArr(<<JObj(<<>>)>>), JArr(<<ObjK(JNum(0))>>), JArr(<<ObjK(SA)>>)>>, JArr(<<ObjK(JNum(0))>>)),
@@ -82,7 +85,7 @@ LeafTable ==
 Leaves == DOMAIN LeafTable
 \* the other leaf of the two-target layouts
 AltOf(k) == CASE k = "bool" -> "int" [] k = "objdef" -> "objdef2" [] k = "objdef2" -> "objdef"
-              [] k = "oreqd" -> "oreq" [] k = "oreq" -> "oreqd" [] OTHER -> "bool"
+              [] k = "oreqd" -> "oreq" [] k = "oreq" -> "oreqd" [] k = "arr" -> "arr2" [] k = "arr2" -> "arr" [] OTHER -> "bool"
 
 Contexts == {"req", "opt", "item", "nested", "addl", "req2", "two", "twoall", "collide"}
 GenericForms == {"inline", "defs", "definitions", "chain", "file", "filedef", "subdir", "updir", "yaml", "noext", "dotslash"}
